@@ -2,6 +2,7 @@
 
 CFG = {
     "gens": ["C14"],
+    "feature": "c14",
     "rule": (
         "five case kinds: c14:b64 (OptAttr::decode_base64 into arrays of 21 sizes: valid text of every length around the bound, padded / "
         "non-url-safe / over-long / dangling-character / trailing-bit / foreign-character variants, random alphabet strings); "
